@@ -48,6 +48,10 @@ def scenarios(ctx):
         for i in range(0, len(gs), 150):
             scs.append({"kind": k, "len": ln, "geos": gs[i:i + 150], "seed": ctx.rng.randrange(10 ** 6)})
     # multi-allelic records (kept with mav=True by polyphase / haplotagphase / compare): a few record shapes, every allele carried
+    # a long unrelated insertion inside the re-alignment window of the variant
+    for k, ln in sorted(by):
+        for rep in range(1 if q else 6):
+            scs.append({"kind": k, "len": ln, "nearins": True, "geos": [], "seed": ctx.rng.randrange(10 ** 6)})
     for shape in MULTI_SHAPES:
         for rep in range(2 if q else 10):
             scs.append({"kind": 5, "len": 0, "multi": shape, "geos": [], "seed": ctx.rng.randrange(10 ** 6)})
@@ -184,9 +188,74 @@ def _eqx(ref, pos0, ops, seq):
     return [(o, n) for o, n in out]
 
 
+def _drive_nearins(sc):
+    """An error-free read that carries, within the re-alignment window of the variant (<= 10 bp from it), a second,
+    unrelated LONG insertion unknown to whatshap (12-16 bp of a base that does not occur in the reference context, so
+    that the exact edit distances are unambiguous).  The allele of the variant must still be found."""
+    from .. import world as W
+    from ..phaseworld import workdir
+    from whatshap.variants import ReadSetReader
+    from whatshap.core import NumericSampleIds
+    from whatshap.vcf import BiallelicVcfVariant
+    rng = random.Random(sc["seed"])
+    kind = KINDS[sc["kind"]]
+    while True:
+        ref = []
+        while len(ref) < 160:                      # reference over {A, C, T} without homopolymer runs
+            b = rng.choice("ACT")
+            if not ref or ref[-1] != b:
+                ref.append(b)
+        ref = "".join(ref)
+        if kind == "del" and not W.deletion_unshiftable(ref, P, sc["len"]):
+            continue
+        V = W.make_variant(rng, ref, P, kind, sc["len"])
+        Wv = W.make_variant(rng, ref, P - 25, "snv", 1)
+        if "G" not in V.ref + V.alt + Wv.alt:
+            break
+    evs, reads, meta = [], [], {}
+    n = 0
+    for side in ("left", "right"):
+        for dist in (2, 4, 7, 9):
+            for k in (12, 14, 16):
+                q = P - dist if side == "left" else P + len(V.ref) - 1 + dist
+                L = W.Variant(q, ref[q], ref[q] + "G" * k)
+                for a in (0, 1):
+                    vs = sorted([Wv, V, L], key=lambda v: v.pos)
+                    al = {id(Wv): n % 2, id(V): a, id(L): 1}
+                    hp = W.Haplotype(ref, vs, [al[id(v)] for v in vs])
+                    hs, he = hp.ref_to_hap(P - 34), hp.ref_to_hap(P + len(V.ref) + 34)
+                    pos0, ops, seq = hp.read(hs, he)
+                    name = f"n{n:04d}"
+                    n += 1
+                    reads.append({"name": name, "flag": 0, "ref": 0, "pos": pos0, "cigar": W.cigar_str(ops), "seq": seq, "rg": "rg1"})
+                    blocks, end = _blocks(pos0, ops)
+                    meta[name] = {"segs": [{"rs": pos0, "re": end, "cig": [[OPC[o], m] for o, m in ops], "qlen": len(seq), "blocks": blocks}],
+                                  "allele": a, "wa": al[id(Wv)], "so": -dist if side == "left" else 0, "eo": dist if side == "right" else 0}
+    d = workdir()
+    try:
+        bam = W.write_bam(os.path.join(d, "r.bam"), [("chr1", len(ref))], reads, [{"ID": "rg1", "SM": "s1"}])
+        variants = [BiallelicVcfVariant(Wv.pos, Wv.ref, Wv.alt), BiallelicVcfVariant(V.pos, V.ref, V.alt)]
+        for withref in (True, False):
+            rdr = ReadSetReader([bam], reference=None, numeric_sample_ids=NumericSampleIds())
+            rs = rdr.read("chr1", variants, "s1", ref if withref else None)
+            got = {r.name: {v.position: v.allele for v in r} for r in rs}
+            for name, m in meta.items():
+                det = got.get(name, {})
+                vs = []
+                for vv, truth in ((Wv, m["wa"]), (V, m["allele"])):
+                    vs.append({"pos": vv.pos, "reflen": len(vv.ref), "altlen": len(vv.alt), "kind": {"snv": 1, "ins": 2, "del": 3, "mnp": 4}[vv.kind],
+                               "truth": truth, "det": int(det.get(vv.pos, -1)), "clean": True, "unshiftable": True})
+                evs.append({"ev": "Detect", "withref": withref, "segs": m["segs"], "vars": vs, "deco": "nearins", "so": m["so"], "eo": m["eo"]})
+        return evs
+    finally:
+        shutil.rmtree(d, ignore_errors=True)
+
+
 def drive(sc):
     if sc.get("multi"):
         return _drive_multi(sc)
+    if sc.get("nearins"):
+        return _drive_nearins(sc)
     import pysam
     from .. import world as W
     from ..phaseworld import workdir
